@@ -193,6 +193,7 @@ type lRun struct {
 	c02   *c02Tracer
 	c11   *c11Tracer
 	c09   *c09Tracer
+	c06   *c06Tracer
 }
 
 func (x *lRun) fail(sig, detail string) {
@@ -353,6 +354,8 @@ func (x *lRun) exec(op lOp) (res TxResult, amt *big.Int) {
 		v := relOf(op.Rel, p.Custody)
 		amt = v.BigInt()
 		return w.Deliver(&perptypes.MsgClose{Creator: creator, Id: p.Id, Amount: v}), amt
+	case "lev_add_collateral": // C06 only (harness/c06_trace_test.go)
+		return c06AddCollateral(x, op)
 	case "donate":
 		v := bigOf(op.Amt)
 		amt = v.BigInt()
@@ -836,6 +839,9 @@ func (x *lRun) block(dt int64) bool {
 	if x.c09 != nil {
 		x.c09.step()
 	}
+	if x.c06 != nil {
+		x.c06.step(BankOps(x.w.LastBlockEvents), "block", "", TxResult{})
+	}
 	x.invariants(fmt.Sprintf("after block %d", x.w.Height))
 	return true
 }
@@ -873,6 +879,9 @@ func runLedgerHistory(t *testing.T, col *Collector, prop string, h lHist) {
 	}
 	if prop == "C09" {
 		x.c09 = newC09Tracer(x)
+	}
+	if prop == "C06" {
+		x.c06 = newC06Tracer(x)
 	}
 	for k, op := range h.Ops {
 		x.step = k
@@ -922,6 +931,9 @@ func runLedgerHistory(t *testing.T, col *Collector, prop string, h lHist) {
 		if x.c09 != nil {
 			x.c09.step()
 		}
+		if x.c06 != nil {
+			x.c06.step(BankOps(res.Events), op.Op, x.m.User(op.U), res)
+		}
 		col.Op(op.Op, res.Kind(), amt)
 		if os.Getenv("VERIF_REPLAY") != "" {
 			fmt.Printf("replay step %d %+v -> %s %v %v\n", k, op, res.Kind(), res.Err, res.Panic)
@@ -967,6 +979,10 @@ func runLedgerHistory(t *testing.T, col *Collector, prop string, h lHist) {
 		col.rep.Extra["share_burns"] = n2 + x.c02.burns
 		col.mu.Unlock()
 	}
+	if x.c06 != nil {
+		col.Case(h.ID, x.c06.caseText(h.ID))
+		x.c06.finish(col)
+	}
 	if x.c08 != nil {
 		col.Case(h.ID, x.c08.caseText(h.ID))
 		col.mu.Lock()
@@ -1002,8 +1018,15 @@ func runLedger(t *testing.T, prop string) {
 		hists = []lHist{one}
 	} else {
 		hists = append(hists, ledgerCorpus()...)
+		if prop == "C06" {
+			hists = append(hists, c06Corpus()...)
+		}
 		for i := len(hists); i < n; i++ {
-			hists = append(hists, lGen(NewRng(uint64(seed), uint64(i)), i))
+			h := lGen(NewRng(uint64(seed), uint64(i)), i)
+			if prop == "C06" {
+				h = c06Augment(h, NewRng(uint64(seed)+1000003, uint64(i)))
+			}
+			hists = append(hists, h)
 		}
 	}
 	RunParallel(len(hists), func(i int) {
@@ -1025,6 +1048,8 @@ func runLedger(t *testing.T, prop string) {
 	case "C09":
 		header = "From Coq Require Import ZArith List Bool.\nFrom Elys Require Import Base.Res Base.Fn Models.SumLedger Models.PerpLedger Run.PerpLedgerRun.\nImport ListNotations.\nOpen Scope Z_scope.\n"
 		footer = "Definition M := Eval vm_compute in mismatches cases.\nPrint M.\n"
+	case "C06":
+		header, footer = c06CoqHeader, c06CoqFooter
 	case "C08":
 		header = "From Coq Require Import ZArith List Bool.\nFrom Elys Require Import Base.Res Base.Fn Models.SumLedger Models.LevLedger Run.LevLedgerRun.\nImport ListNotations.\nOpen Scope Z_scope.\n"
 		footer = "Definition M := Eval vm_compute in mismatches cases.\nPrint M.\n"
